@@ -498,6 +498,7 @@ def main_check(prop_id, mod_name, tier, replay_file=None):
         return 2
 
     # ---- attribute / shrink / report failures
+    shrunk_buckets = 0
     for bucket, f in sorted(merged['failures'].items()):
         rec = f['cases'][0]
         kid = attribute(bucket, rec)
@@ -506,7 +507,8 @@ def main_check(prop_id, mod_name, tier, replay_file=None):
             continue
         case = rec['case']
         detail = rec['detail']
-        if hasattr(mod, 'replay') and not os.environ.get('VERIF_NO_SHRINK'):
+        shrunk_buckets += 1
+        if hasattr(mod, 'replay') and not os.environ.get('VERIF_NO_SHRINK') and shrunk_buckets <= getattr(mod, 'MAX_SHRINK_BUCKETS', 3):
             def still(c, _b=bucket):
                 o = mod.replay(c)
                 return bool(o) and o[0] == _b and not attribute(o[0], {'case': c, 'detail': o[1]})
